@@ -9,7 +9,7 @@
 From Coq Require Import ZArith List Bool Arith.
 Import ListNotations.
 Require Import SC3.model.OscMatch SC3.model.OscBundleParse SC3.model.Dispatch SC3.model.Registry.
-Require Import SC3.proofs.C18_match SC3.proofs.C18_parse SC3.proofs.C18_dispatch SC3.proofs.C18_registry.
+Require Import SC3.proofs.C18_match SC3.proofs.C18_render SC3.proofs.C18_parse SC3.proofs.C18_dispatch SC3.proofs.C18_registry.
 Open Scope Z_scope.
 
 (* ======================= (a) the matcher ======================================================== *)
@@ -27,6 +27,20 @@ Proof. intros r s. apply rprefix_correct. Qed.
    of the regex a token sequence compiles to *)
 Theorem osc10_language_compiled : forall ts a, lang (compile ts) a <-> osc_lang ts a.
 Proof. exact compile_correct. Qed.
+
+(* from the pattern TEXT to the OSC 1.0 language: for patterns made of literals, '?' and '*' the
+   matching function (rewrite, then the regex parser, then derivatives) answers yes exactly on the
+   OSC 1.0 language of the pattern.
+   FULL statement (proved only for this fragment; bracket and brace patterns are tied by the
+   correspondence and by the search oracle):
+     forall ts a, well_formed ts -> (osc_rematch (render ts) a = MTrue <-> osc_lang ts a) *)
+Theorem osc10_pattern_text_correct_partial : forall ts a, forallb flat_tok ts = true ->
+  (osc_rematch (render ts) a = MTrue <-> osc_lang ts a).
+Proof. exact flat_pattern_correct. Qed.
+Example flat_pattern_nonvacuous :
+  forallb flat_tok [OLit 47; OLit 97; OStar; OAny] = true /\ render [OLit 47; OLit 97; OStar; OAny] = [47; 97; 42; 63]
+  /\ osc_rematch [47; 97; 42; 63] [47; 97; 98; 99] = MTrue.
+Proof. repeat split; vm_compute; reflexivity. Qed.
 
 (* whole-length matching: a literal pattern matches only itself (in particular never a path that
    merely starts with it), and whenever the matcher says yes the WHOLE path is in the language of
@@ -273,6 +287,7 @@ Proof. vm_compute. reflexivity. Qed.
 
 Print Assumptions deriv_match_correct.
 Print Assumptions match_whole_length.
+Print Assumptions osc10_pattern_text_correct_partial.
 Print Assumptions parse_total.
 Print Assumptions dispatch_exact.
 Print Assumptions dispatch_matching_exactly_once.
